@@ -26,6 +26,7 @@ def dispatch (op : String) : Option (P Verdict) :=
   | "wavg" => some Drv.Wts.runWavg
   | "lines" => some Drv.Lab.runLines
   | "forms" => some Drv.Lab.runForms
+  | "units" => some Drv.Lab.runUnits
   | "det" => some Drv.Det.runDet
   | "hist" => some Drv.Det.runHist
   | "thr" => some Drv.Eng.runThr
